@@ -20,7 +20,7 @@ SPINS = ['sp_while', 'sp_for', 'sp_dowhile', 'sp_foreach', 'sp_foreach_map', 'sp
          'rc_direct', 'rc_mut_a', 'rc_fp', 'rc_filter', 'rc_map', 'rc_sort', 'rc_unique', 'rc_callother', 'rc_catch', 'rc_catch2', 'rc_fpargs', 'rc_spread', 'rc_efunfp']
 BUILDS = ['str+=', 'str+', 'gstr+=', 'sprintf', 'repeat', 'replace', 'implode', 'arr+=', 'arr+', 'garr+=', 'allocate', 'explode', 'map+', 'mapins',
           'gmapins', 'allocmap', 'allocbuf', 'buf+', 'copy', 'keys', 'strrange', 'arrrange', 'bufrange', 'gstrrange', 'replace5', 'replace1', 'spad', 'spadr',
-          'scol', 'imparr', 'strslice', 'mapmul']
+          'scol', 'imparr', 'strslice', 'mapmul', 'replace_end', 'replace_mid']
 
 
 def gen(rng, tier, i):
